@@ -1,5 +1,6 @@
 import Sop.Lemmas.JsonPatch
 import Sop.Model.StoreInfoHistory
+import Sop.Model.StoreInfoGet
 import Sop.Lemmas.StoreInfoCache
 /-!
 # C13 — committing changes never alters or corrupts a store's configuration
@@ -527,6 +528,242 @@ theorem C13_recache_unreverted_witness :
     (((H.mk demoState (fun _ => 0)).run updateBad (demoHistory.take 1)).s "alpha").cache = some ⟨3, 1000, 1⟩ ∧
     ((H.mk demoState (fun _ => 0)).run updateBad demoHistory).committed "alpha" = 2 ∧
     ((H.mk demoState (fun _ => 0)).run updateBad demoHistory).cold "alpha" = some ⟨5, 2000, 1⟩ := by
+  decide +kernel
+
+end Sop.C13
+
+namespace Sop.C13
+open Sop.SIGet
+
+/-! ## configuration half, across processes: multi-name `Get`, commits, reopen -/
+
+theorem merge_nil (f : List Nat) : merge [] f = f := by simp [merge]
+
+/-- decoding into a FRESH value yields exactly the file's record -/
+theorem decodeInto_zero (f : Cfg) : decodeInto Cfg.zero f = f := by
+  cases f
+  simp [decodeInto, Cfg.zero, keep, merge_nil]
+  refine ⟨?_, ?_, ?_, ?_, ?_⟩ <;> (intro h; exact h.symm)
+
+theorem cell_set (s : St) (n m : String) (c : Cell) : (s.set n c).cell m = if m = n then c else s.cell m := by
+  unfold St.set St.cell
+  by_cases h : m = n
+  · subst h; simp [List.lookup]
+  · have : (m == n) = false := by simpa using h
+    simp [List.lookup, this, h]
+
+/-- loop 2 of the code as it is: files untouched, every reader is still owed the same record, every appended record is
+the one its own name is owed -/
+structure MInv (s0 : St) (a : SIGet.Acc) : Prop where
+  disk : ∀ m, (a.s.cell m).disk = (s0.cell m).disk
+  due : ∀ m, SIGet.own a.s m = SIGet.own s0 m
+  out : ∀ p ∈ a.out, SIGet.own s0 p.1 = some p.2
+
+theorem missStep_inv (s0 : St) (a : SIGet.Acc) (n : String) (h : MInv s0 a) (hn : (s0.cell n).cache = none) :
+    MInv s0 (missStep false a n) := by
+  unfold missStep
+  cases hd : (a.s.cell n).disk with
+  | none => simpa using h
+  | some f =>
+    have hown0 : own s0 n = some f := by
+      unfold own; rw [hn]; simp only; rw [← h.disk n, hd]
+    simp only [Bool.false_eq_true, if_false, decodeInto_zero]
+    refine ⟨fun m => ?_, fun m => ?_, fun p hp => ?_⟩
+    · simp only [cell_set]
+      by_cases e : m = n
+      · subst e; simp; rw [← h.disk m, hd]
+      · simp [e]; exact h.disk m
+    · unfold own
+      simp only [cell_set]
+      by_cases e : m = n
+      · subst e; simp; exact hown0.symm
+      · simp only [e, if_false]; exact h.due m
+    · rcases List.mem_append.1 hp with hp | hp
+      · exact h.out p hp
+      · simp only [List.mem_singleton] at hp; subst hp; exact hown0
+
+theorem fold_inv (s0 : St) : ∀ (ms : List String) (a : SIGet.Acc), MInv s0 a → (∀ n ∈ ms, (s0.cell n).cache = none) →
+    MInv s0 (ms.foldl (missStep false) a)
+  | [], a, h, _ => h
+  | n :: ms, a, h, hm =>
+    fold_inv s0 ms _ (missStep_inv s0 a n h (hm n (by simp))) (fun k hk => hm k (by simp [hk]))
+
+theorem get_inv (s : St) (names : List String) :
+    MInv s ((names.filter fun n => (s.cell n).cache.isNone).foldl (missStep false) ⟨s, Cfg.zero, []⟩) :=
+  fold_inv s _ _ ⟨fun _ => rfl, fun _ => rfl, by simp⟩ (by
+    intro n hn
+    simp only [List.mem_filter, Option.isNone_iff_eq_none] at hn
+    exact hn.2)
+
+/-- **C13_get_independent**: in `GetWithTTL(names…)` of the code as it is, the record returned for a name is exactly
+what THAT name is owed (its own cache entry, else its own file) — whatever other names the call carries, in whatever
+order, and whatever their files contain. -/
+theorem C13_get_independent (s : St) (names : List String) :
+    ∀ p ∈ (getWith false s names).2, own s p.1 = some p.2 := by
+  intro p hp
+  unfold getWith at hp
+  simp only at hp
+  rcases List.mem_append.1 hp with hp | hp
+  · simp only [List.mem_filterMap] at hp
+    obtain ⟨n, _, hn⟩ := hp
+    cases hc : (s.cell n).cache with
+    | none => simp [hc] at hn
+    | some c =>
+      simp only [hc, Option.map_some, Option.some.injEq] at hn
+      subst hn
+      simp [own, hc]
+  · exact (get_inv s names).out p hp
+
+/-- … so two calls with different companions / a different order agree on every name they share -/
+theorem C13_get_order_independent (s : St) (names names' : List String) (p q : String × Cfg)
+    (hp : p ∈ (getWith false s names).2) (hq : q ∈ (getWith false s names').2) (e : p.1 = q.1) : p.2 = q.2 := by
+  have a := C13_get_independent s names p hp
+  have b := C13_get_independent s names' q hq
+  rw [e, b] at a
+  exact (Option.some.inj a).symm
+
+/-- the call changes no file and nobody's due (the entries it caches are the files' own records) -/
+theorem get_state (s : St) (names : List String) (m : String) :
+    ((getWith false s names).1.cell m).disk = (s.cell m).disk ∧ own (getWith false s names).1 m = own s m :=
+  ⟨(get_inv s names).disk m, (get_inv s names).due m⟩
+
+/-- every cache entry equals its file -/
+def Coh (s : St) : Prop := ∀ m c, (s.cell m).cache = some c → (s.cell m).disk = some c
+
+theorem own_of_coh {s : St} (h : Coh s) (m : String) : own s m = (s.cell m).disk := by
+  unfold own
+  cases hc : (s.cell m).cache with
+  | none => rfl
+  | some c => simp only; exact (h m c hc).symm
+
+theorem coh_of_own {s : St} (h : ∀ m, own s m = (s.cell m).disk) : Coh s := by
+  intro m c hc
+  have := h m
+  simp only [own, hc] at this
+  exact this.symm
+
+theorem coldStart_cell (names : List String) : ∀ (s : St) (m : String),
+    ((s.coldStart names).cell m).disk = (s.cell m).disk ∧
+    (((s.coldStart names).cell m).cache = (s.cell m).cache ∨ ((s.coldStart names).cell m).cache = none) := by
+  induction names with
+  | nil => intro s m; exact ⟨rfl, Or.inl rfl⟩
+  | cons n ns ih =>
+    intro s m
+    unfold St.coldStart
+    simp only [List.foldl_cons]
+    have := ih (s.set n { s.cell n with cache := none }) m
+    unfold St.coldStart at this
+    rw [cell_set] at this
+    by_cases e : m = n
+    · subst e; simp only [if_true] at this
+      exact ⟨this.1, Or.inr (by rcases this.2 with h | h <;> simpa using h)⟩
+    · simp only [e, if_false] at this; exact this
+
+theorem step_inv (s0 s : St) (e : Ev) (hc : Coh s) (hd : ∀ m, (s.cell m).disk = (s0.cell m).disk) :
+    Coh (step false s e) ∧ ∀ m, ((step false s e).cell m).disk = (s0.cell m).disk := by
+  cases e with
+  | get names =>
+    simp only [step]
+    refine ⟨coh_of_own fun m => ?_, fun m => by rw [(get_state s names m).1]; exact hd m⟩
+    rw [(get_state s names m).2, own_of_coh hc, (get_state s names m).1]
+  | commit n full =>
+    simp only [step, commitWith]
+    have hg : Coh (getWith false s [n]).1 := coh_of_own fun m => by
+      rw [(get_state s [n] m).2, own_of_coh hc, (get_state s [n] m).1]
+    have hgd : ∀ m, ((getWith false s [n]).1.cell m).disk = (s0.cell m).disk := fun m => by
+      rw [(get_state s [n] m).1]; exact hd m
+    cases ho : own (getWith false s [n]).1 n with
+    | none => exact ⟨hg, hgd⟩
+    | some caller =>
+      have hcd : ((getWith false s [n]).1.cell n).disk = some caller := by rw [← own_of_coh hg]; exact ho
+      simp only
+      refine ⟨?_, fun m => ?_⟩
+      · intro m c hmc
+        rw [cell_set] at hmc ⊢
+        by_cases e : m = n
+        · subst e
+          simp only [if_true] at hmc ⊢
+          cases full <;> simp_all
+        · simp only [e, if_false] at hmc ⊢; exact hg m c hmc
+      · rw [cell_set]
+        by_cases e : m = n
+        · subst e
+          simp only [if_true]
+          cases full
+          · simp; exact hgd m
+          · simp; rw [← hcd]; exact hgd m
+        · simp only [e, if_false]; exact hgd m
+  | evict n =>
+    simp only [step, St.evict]
+    refine ⟨?_, fun m => ?_⟩
+    · intro m c hmc
+      rw [cell_set] at hmc ⊢
+      by_cases e : m = n
+      · subst e; simp at hmc
+      · simp only [e, if_false] at hmc ⊢; exact hc m c hmc
+    · rw [cell_set]
+      by_cases e : m = n
+      · subst e; simp; exact hd m
+      · simp only [e, if_false]; exact hd m
+  | cold names =>
+    simp only [step]
+    refine ⟨?_, fun m => by rw [(coldStart_cell names s m).1]; exact hd m⟩
+    intro m c hmc
+    rcases (coldStart_cell names s m).2 with h | h
+    · rw [(coldStart_cell names s m).1]; rw [h] at hmc; exact hc m c hmc
+    · rw [h] at hmc; cases hmc
+
+/-- **C13_config_history**: from a state in which every cache entry equals its file, after ANY history of multi-name
+`Get`s (any names, any order), commits (patch or full save) by transactions that opened their store with a cache-first
+`Get`, evictions and process restarts, every store's `storeinfo.txt` carries exactly the configuration it had — and
+every cache entry still equals its file, so every reader in every process gets that configuration. -/
+theorem C13_config_history (s : St) (es : List Ev) (hc : Coh s) :
+    Coh (run false s es) ∧ ∀ m, ((run false s es).cell m).disk = (s.cell m).disk := by
+  suffices h : ∀ (es : List Ev) (t : St), Coh t → (∀ m, (t.cell m).disk = (s.cell m).disk) →
+      Coh (run false t es) ∧ ∀ m, ((run false t es).cell m).disk = (s.cell m).disk from h es s hc (fun _ => rfl)
+  intro es
+  induction es with
+  | nil => intro t a b; exact ⟨a, b⟩
+  | cons e es ih =>
+    intro t a b
+    obtain ⟨a', b'⟩ := step_inv s t e a b
+    exact ih _ a' b'
+
+/-! ### the seeded demo: `orders` (CEL expression, relations, custom data) and `plain` (nothing optional) -/
+def ordersCfg : Cfg := { base := 1, cel := 1, rel := 1, cd := [1] }
+def plainCfg : Cfg := { base := 2 }
+def demoG : St := St.add (St.add [] "orders" ordersCfg) "plain" plainCfg
+/-- a new process reads both stores in one call, opens `plain` and commits its first item (full save); reopen -/
+def demoGHistory : List Ev :=
+  [.cold ["orders", "plain"], .get ["orders", "plain"], .commit "plain" true, .cold ["orders", "plain"]]
+
+theorem coh_nil : Coh [] := by
+  intro m c h; simp [St.cell] at h
+
+theorem coh_add {s : St} (h : Coh s) (n : String) (c : Cfg) : Coh (s.add n c) := by
+  intro m x hx
+  unfold St.add at *
+  rw [cell_set] at hx ⊢
+  by_cases e : m = n
+  · simp only [e, if_true] at hx ⊢; simpa using hx
+  · simp only [e, if_false] at hx ⊢; exact h m x hx
+
+theorem demoG_coh : Coh demoG := coh_add (coh_add coh_nil _ _) _ _
+
+theorem demoG_as_is : ((run false demoG demoGHistory).cell "plain").disk = some plainCfg ∧
+    (getWith false (demoG.coldStart ["orders", "plain"]) ["orders", "plain"]).2 = [("orders", ordersCfg), ("plain", plainCfg)] := by
+  decide +kernel
+
+/-- **C13_shared_target_witness**: the variant with ONE decode target for all the misses of a call: `plain` comes back
+from the two-name `Get` with the CEL expression, relations and custom data of `orders`, the record is cached under
+`plain`'s own key, and the full save of `plain`'s first commit writes it to `plain`'s storeinfo.txt: a cold reopen reads
+a foreign configuration (`C13_get_independent` / `C13_config_history` fail for the variant). In the other order
+(`plain` first) nothing shows. -/
+theorem C13_shared_target_witness :
+    (getWith true (demoG.coldStart ["orders", "plain"]) ["orders", "plain"]).2 =
+      [("orders", ordersCfg), ("plain", { base := 2, cel := 1, rel := 1, cd := [1] })] ∧
+    ((run true demoG demoGHistory).cell "plain").disk = some { base := 2, cel := 1, rel := 1, cd := [1] } ∧
+    (getWith true (demoG.coldStart ["orders", "plain"]) ["plain", "orders"]).2 = [("plain", plainCfg), ("orders", ordersCfg)] := by
   decide +kernel
 
 end Sop.C13
